@@ -308,6 +308,7 @@ def levelcache_instance(O, layer, rules, maxn, maxr, maxt, hashes):
 VCHK = r"""
 /* R12: a subscript of a sized vector carries the size assertion of Vector<T>::operator[] / std::vector's contract */
 #define VCHK(a, i) (__CPROVER_assert((i) >= 0 && (i) < a##_size, "vector subscript within size: " #a), (i))
+#define VSIZE_SET(a, e) (a##_size = (e))
 """
 
 
@@ -375,3 +376,82 @@ static int num_omp_threads_;
 static _Bool DirBC_Interior_;
 #define VEC_COPY(dst, src) do { for (int vc_i = 0; vc_i < dst##_size; vc_i++) dst[vc_i] = src[vc_i]; } while (0)
 """
+
+
+def parse_init_list(init):
+    """`a_(e1), b_(e2)` -> [(a_, e1), (b_, e2)]"""
+    from vlib import split_top
+    res = []
+    for item in split_top(init, angle=False):
+        m = re.match(r"^(\w+)\s*[\(\{](.*)[\)\}]\s*$", item.strip(), re.S)
+        if not m:
+            raise ExtractError("cannot parse member initialiser: " + item)
+        res.append((m.group(1), m.group(2).strip()))
+    return res
+
+
+def levelcache_ctor(O, which, rules, layer, hashes, grid_obj, prev=None, prev_grid=None):
+    """Emit LevelCache constructor `which` (0: from grid+providers, 1: from the previous level) for instance O.
+    R11: member initialisers become assignments (`vec_(n)` -> size := n ; scalar_(e) -> scalar := e ; reference
+    members bind the const provider objects and are dropped)."""
+    src = Src.get("src/Level/levelCache.cpp")
+    f = src.function("LevelCache::LevelCache", occurrence=which)
+    hashes["LevelCache::LevelCache#%d" % which] = sha(f["init"] + f["body"])
+    members = list(LC_VECS) + LC_SCALARS + LC_OBJS
+    pre = []
+    body = f["body"]
+    init = f["init"]
+    if which == 1:
+        if [p[1] for p in f["params"]] != ["previous_level", "current_grid"]:
+            raise ExtractError("LevelCache(previous_level, current_grid) signature changed")
+        body = rules.sub("R2.alias.previous_level_cache",
+                         r"const\s+auto\s*&\s*previous_level_cache\s*=\s*previous_level\.levelCache\(\)\s*;", "", body, expect=1)
+        acc = "|".join(LC_ACCESSORS)
+
+        def accrep(m):
+            return "%s__%s" % (prev, LC_ACCESSORS[m.group(1)])
+        both = []
+        for t in (init, body):
+            t = re.sub(r"previous_level\.levelCache\(\)\.(%s)\(\)" % acc, accrep, t)
+            t = re.sub(r"previous_level_cache\.(%s)\(\)" % acc, accrep, t)
+            t = re.sub(r"previous_level\.grid\(\)", prev_grid, t)
+            both.append(t)
+        init, body = both
+        if "previous_level" in init + body:
+            raise ExtractError("unrewritten use of previous_level in LevelCache ctor 2")
+        pre.append("#define current_grid %s" % grid_obj)
+        sig = "void"
+    else:
+        names = [p[1] for p in f["params"]]
+        if names != ["grid", "density_profile_coefficients", "domain_geometry", "cache_density_profile_coefficients",
+                     "cache_domain_geometry"]:
+            raise ExtractError("LevelCache ctor 1 signature changed")
+        pre.append("#define grid %s" % grid_obj)
+        pre.append("#define density_profile_coefficients %s__density_profile_coefficients_" % O)
+        pre.append("#define domain_geometry %s__domain_geometry_" % O)
+        sig = "const _Bool cache_density_profile_coefficients, const _Bool cache_domain_geometry"
+    body = rules.sub("R13.double_index", r"const\s+double\s+(index)\s*=", r"const int \1 =", body)
+    assigns = []
+    for name, expr in parse_init_list(init):
+        if name in LC_OBJS:
+            continue
+        if name in LC_VECS:
+            assigns.append("    VSIZE_SET(%s, %s);" % (name, expr))
+        elif name in LC_SCALARS:
+            assigns.append("    %s = %s;" % (name, expr))
+        else:
+            raise ExtractError("LevelCache ctor initialises unknown member " + name)
+    missing = [m for m in list(LC_VECS) + LC_SCALARS
+               if not any(re.search(r"\b%s\b" % re.escape(m), a.split("=")[0].split(",")[0]) for a in assigns)]
+    if missing:
+        raise ExtractError("LevelCache ctor does not initialise " + ",".join(missing))
+    text = "\n".join(assigns) + "\n" + body
+    text = common_body_rewrites(text, rules, layer)
+    text, n = wrap_subscripts(text, list(LC_VECS) + ([prev + "__" + v for v in LC_VECS] if prev else []), "VCHK(%s, %s)")
+    rules.log.append(("R12.sized_subscript", n))
+    text = re.sub(r"(?<![\w])(" + "|".join(map(re.escape, members)) + r")\b", lambda m: O + "__" + m.group(1), text)
+    text = text.replace("VCHK(%s__" % O, "VCHK(%s__" % O)
+    name = "%s__construct%d" % (O, which)
+    out = pre + ["static void %s(%s)\n{\n%s}\n" % (name, sig, text)]
+    out += ["#undef " + p.split()[1] for p in pre]
+    return "\n".join(out) + "\n", name
